@@ -27,7 +27,7 @@ SIGSET = (MalformedSignature, der.UnexpectedDER)
 ECDHSET = KEYSET + (InvalidCurveError, NoCurveError)
 REQUIRED = {"quick": ["vk.from_string", "vk.from_der", "vk.from_pem", "sk.from_string", "sk.from_der", "sk.from_pem", "sigdecode_string",
                       "sigdecode_strings", "sigdecode_der", "verify.string", "verify.der", "verify.strings", "ecdh.pub_bytes", "ecdh.pub_der", "ecdh.pub_pem",
-                      "ecdh.priv_bytes", "ecdh.priv_der", "ecdh.priv_pem", "outcome.ok", "outcome.documented"]}
+                      "ecdh.priv_bytes", "ecdh.priv_der", "ecdh.priv_pem", "outcome.ok", "outcome.documented", "concurrent_loaders"]}
 SHARD_BUDGET_S = {"quick": 120, "thorough": 1500}
 
 
@@ -41,6 +41,8 @@ def shards(tier, seed):
     for i in range(8 if q else 32):
         out.append(("random_%d" % i, dict(kind="random", cname=names[i % len(names)], count=(1500 if names[i % len(names)] != "NIST521p" else 400) if q else 60000)))
     out.append(("pem", dict(kind="pem", count=1500 if q else 40000)))
+    for i in range(2 if q else 8):
+        out.append(("concurrent_loaders_%d" % i, dict(kind="concurrent", runs=120 if q else 1500)))
     if not q:
         for nm in ("NIST192p", "SECP112r1"):
             for part in range(8):
@@ -281,6 +283,54 @@ def _run(ctx, rng, kind, **kw):
                         for t in targets:
                             feed(ctx, E[t], data, "allsubst", stats, curve.name)
             flush(ctx, stats)
+    elif kind == "concurrent":
+        # 2-3 real threads, serialised by the token scheduler, each decoding valid keys; a context switch can be placed at every line of
+        # find_curve and of the DER/PEM loaders.  Valid input must load, whatever the interleaving.
+        from ecdsa import curves as _c, keys as _k
+        from vf import sched as S
+        hooks = S.LineHooks()
+        hooks.install([_c.find_curve.__code__] + S.codes_of(_k.VerifyingKey, {"from_der", "from_pem", "from_string"}) + S.codes_of(_k.SigningKey, {"from_der", "from_pem"})
+                      + S.codes_of(der, {"unpem", "remove_object", "remove_sequence"}), None)
+        try:
+            names = [c.name for c in lib.ALL_CURVES if c.order.bit_length() <= 256]
+            blobs = {}
+            for nm in names:
+                c = lib.BY_NAME[nm]
+                sk = ecdsa.SigningKey.from_secret_exponent(rng.randrange(1, c.order), c)
+                blobs[nm] = [("vk.from_der", sk.verifying_key.to_der(), sk.verifying_key.to_string()), ("sk.from_der", sk.to_der(), sk.to_string()),
+                             ("sk.from_der", sk.to_der(format="pkcs8"), sk.to_string()), ("vk.from_pem", sk.verifying_key.to_pem(), sk.verifying_key.to_string())]
+            for run_i in range(kw["runs"]):
+                nthreads = rng.choice((2, 2, 3))
+                same = rng.random() < 0.7
+                nm0 = rng.choice(names[3:])
+                jobs = [rng.choice(blobs[nm0 if same else rng.choice(names)]) for _ in range(nthreads)]
+                results = {}
+                s = S.Sched(S.random_decider(rng, rng.choice((0.1, 0.3, 0.6))), max_steps=50000)
+
+                def body(i, job):
+                    def f():
+                        kindj, blob, want = job
+                        obj = {"vk.from_der": ecdsa.VerifyingKey.from_der, "sk.from_der": ecdsa.SigningKey.from_der, "vk.from_pem": ecdsa.VerifyingKey.from_pem}[kindj](blob)
+                        results[i] = obj.to_string() == want
+                    return f
+                for i, job in enumerate(jobs):
+                    s.spawn(body(i, job), "T%d" % i)
+                hooks.sched = s
+                ok = s.run(timeout=20.0)
+                hooks.sched = None
+                ctx.case("concurrent_loaders", key="%s|%d|%d" % ("same" if same else "mixed", nthreads, min(s.switches, 12)), nontrivial=s.switches > nthreads)
+                ctx.count("concurrent_loader_yield_points", s.steps)
+                for i, job in enumerate(jobs):
+                    t = s.ts[i]
+                    if t.exc is not None:
+                        ctx.violation("%s@concurrent_loaders" % type(t.exc).__name__, "%s of a valid %s key raised %s: %s while %d other thread(s) were decoding keys" % (
+                            job[0], nm0 if same else "?", type(t.exc).__name__, t.exc, nthreads - 1), dict(jobs=[j[0] for j in jobs], decisions=s.decisions[:400]))
+                    elif ok and results.get(i) is not True:
+                        ctx.violation("loader_wrong_result@concurrent_loaders", "%s returned another key under interleaving" % job[0], dict(jobs=[j[0] for j in jobs]))
+                if not ok and s.aborted == "watchdog":
+                    ctx.count("watchdog_inconclusive")
+        finally:
+            hooks.uninstall()
     elif kind == "pem":
         curve = lib.BY_NAME["NIST256p"]
         sk, vk, msg, digest, M = material(curve, rng)
